@@ -5,6 +5,7 @@ import (
 	"encoding/json"
 	"errors"
 	"fmt"
+	"runtime"
 	"sort"
 	"strings"
 
@@ -752,6 +753,7 @@ func evalPanicCall(entry string) (string, string) {
 	bad := fox.WithMiddleware(func(next fox.HandlerFunc) fox.HandlerFunc { panic(boomVal{}) })
 	before := hist.Observe(f, poolPrefix)
 	var pv any
+	goexit := false
 	func() {
 		defer func() { pv = recover() }()
 		switch entry {
@@ -796,6 +798,29 @@ func evalPanicCall(entry string) (string, string) {
 				txn.Abort()
 				panic(boomVal{})
 			})
+		case "Updates{Handle; Delete; runtime.Goexit}", "Txn(true){Handle; runtime.Goexit} with deferred Abort":
+			// the function never returns and does not panic either: its goroutine is ended (runtime.Goexit, what
+			// t.FailNow does); deferred calls run, nothing was committed, so nothing of the writes may show
+			done := make(chan struct{})
+			go func() {
+				defer close(done)
+				if strings.HasPrefix(entry, "Updates") {
+					f.Updates(func(txn *fox.Txn) error {
+						txn.Handle("GET", "/a/c", h, fx.WithVer(1))
+						txn.Delete("GET", "/a")
+						runtime.Goexit()
+						return nil
+					})
+					return
+				}
+				txn := f.Txn(true)
+				defer txn.Abort()
+				txn.Handle("GET", "/a/c", h, fx.WithVer(1))
+				runtime.Goexit()
+				txn.Commit()
+			}()
+			<-done
+			goexit = true // no panic to propagate in this ending
 		}
 	}()
 	if entry == "Updates{Handle; Commit; panic}" {
@@ -807,7 +832,7 @@ func evalPanicCall(entry string) (string, string) {
 		before = hist.Observe(g, poolPrefix)
 	}
 	desc := "panic during " + entry + " on {GET /a, GET /a/b}"
-	if _, ok := pv.(boomVal); !ok {
+	if _, ok := pv.(boomVal); !ok && !(goexit && pv == nil) {
 		return "panic-swallowed", fmt.Sprintf("the panic did not propagate unchanged (got %v): %s", pv, desc)
 	}
 	var after string
@@ -831,7 +856,7 @@ func evalPanicCall(entry string) (string, string) {
 	return "", ""
 }
 
-var panicEntries = []string{"Router.Handle", "Router.Update", "Router.NewRoute+HandleRoute", "Updates{Handle ok; Handle panicking}", "Updates{Delete; Update panicking}", "Txn(true){Handle panicking} with deferred Abort", "Updates{Handle; Commit; panic}", "Updates{Handle; Abort; panic}"}
+var panicEntries = []string{"Router.Handle", "Router.Update", "Router.NewRoute+HandleRoute", "Updates{Handle ok; Handle panicking}", "Updates{Delete; Update panicking}", "Txn(true){Handle panicking} with deferred Abort", "Updates{Handle; Commit; panic}", "Updates{Handle; Abort; panic}", "Updates{Handle; Delete; runtime.Goexit}", "Txn(true){Handle; runtime.Goexit} with deferred Abort"}
 
 func init() {
 	mc.Register(&mc.Check{
